@@ -336,6 +336,48 @@ pub fn source_hints(rep: &mut Report) {
         }
         t.nontrivial(&name);
     }
+    // sources that are not fused: after their first `None` they answer again - with an error,
+    // with the document once more, or with one more character. Nothing is said about *what* the
+    // parser returns then (the input of a non-fused iterator is not well defined); it has to
+    // return, without panicking, and must not pull without bound
+    for (name, bytes, _) in &docs {
+        let text = match std::str::from_utf8(bytes) {
+            Ok(s) if s.len() <= 2000 => s,
+            _ => continue,
+        };
+        for behaviour in 0..3u8 {
+            t.evals += 1;
+            let r = explore::guard(|| {
+                let mut first = text.chars();
+                let mut nones = 0u32;
+                let mut again = text.chars();
+                let mut pulls = 0usize;
+                let src = std::iter::from_fn(|| {
+                    pulls += 1;
+                    if pulls > 3 * text.len() + 64 {
+                        panic!("the parser keeps pulling a source that has answered None {nones} times");
+                    }
+                    if let Some(c) = first.next() {
+                        return Some(Ok(c));
+                    }
+                    nones += 1;
+                    match (nones, behaviour) {
+                        (1, _) => None,
+                        (_, 0) => Some(Err(7u8)),
+                        (_, 1) => again.next().map(Ok),
+                        (2, _) => Some(Ok(']')),
+                        _ => None,
+                    }
+                });
+                if let Ok((v, _)) = Value::parse_utf8_with(src, STRICT) {
+                    crate::pump::release(v);
+                }
+            });
+            if let Err(p) = r {
+                t.violation("", format!("{name}: from a source that is not fused (behaviour {behaviour} after its first None) the parser panicked: {p}"), json!({"kind": "source-hint", "document": name, "non_fused": behaviour}));
+            }
+        }
+    }
     // endless sources
     let endless: Vec<(&str, Box<dyn Fn() -> Box<dyn Iterator<Item = char>>>, EK)> = vec![
         ("an endless run of x", Box::new(|| Box::new(std::iter::repeat('x'))), EK::Unexpected(0, Some('x'))),
